@@ -47,7 +47,7 @@ def assigned_paths(stmts):
                 add("$nprinted", None)
             if isinstance(n, ast.Call) and isinstance(n.func, ast.Attribute) and n.func.attr in ("write", "__call__") or \
                     isinstance(n, ast.Call) and isinstance(n.func, ast.Name) and n.func.id in ("step", "__ginc__"):
-                for g_ in ("$nwrites", "$w_writer", "$w_rec1", "$w_rec2", "$nfiltered", "$nstat", "$ncalls", "$c_step", "$c_obj",
+                for g_ in ("$nwrites", "$w_writer", "$w_rec1", "$w_rec2", "$nfiltered", "$nstat", "$ncalls", "$nconsumed", "$c_step", "$c_obj",
                            "$c_in", "$c_in2", "$c_none", "$c_out", "$c_out2", "$chain_start"):
                     add(g_, None)
             if isinstance(n, ast.Call) and isinstance(n.func, ast.Attribute) and n.func.attr == "add_match":
